@@ -505,6 +505,83 @@ def guillot_case(case):
     return r
 
 
+
+# ---------------------------------------------------------------------------------------------
+# history phase: one live profile object driven through every sequence of fitting-parameter updates
+# (what a retrieval does), evaluated after each, against a fresh object given the net settings
+# ---------------------------------------------------------------------------------------------
+HIST_FAMILIES = {
+    'npoint': [['T_surface', 2500.0], ['T_surface', 600.0], ['T_top', 300.0], ['T_top', 2400.0], ['T_point1', 2500.0],
+               ['T_point1', 350.0], ['P_point1', 1e4], ['P_point1', 1e1], ['P_point1', 1e7], ['P_top', 1e0],
+               ['P_surface', 1e5]],
+    'guillot': [['T_irr', 800.0], ['T_irr', 2200.0], ['kappa_irr', 0.1], ['kappa_irr', 0.0], ['kappa_v1', 0.05],
+                ['kappa_v2', 0.0005], ['alpha', 0.1], ['alpha', 0.9], ['T_int_guillot', 600.0]],
+    'rodgers': [['T_1', 2500.0], ['T_1', 300.0], ['T_3', 2500.0], ['T_5', 300.0], ['correlation_length', 1.0],
+                ['correlation_length', 20.0]],
+    'iso': [['T', 300.0], ['T', 2500.0]],
+}
+
+
+def hist_make(fam):
+    from taurex.data.profiles.temperature import NPoint, Guillot2010, Rodgers2000, Isothermal
+    if fam == 'npoint':
+        return NPoint(T_surface=1500.0, T_top=1000.0, temperature_points=[1200.0], pressure_points=[1e3],
+                      P_surface=1e6, P_top=1e-1, smoothing_window=10, limit_slope=600.0)
+    if fam == 'guillot':
+        return Guillot2010(T_irr=1500.0, kappa_irr=0.01, kappa_v1=0.005, kappa_v2=0.002, alpha=0.3, T_int=200.0)
+    if fam == 'rodgers':
+        return Rodgers2000(temperature_layers=[1500.0, 1300.0, 1100.0, 900.0, 700.0])
+    return Isothermal(T=1000.0)
+
+
+def hist_eval(t):
+    """('profile', array) or ('invalid', exception class name)"""
+    from taurex.exceptions import InvalidModelException
+    try:
+        return 'profile', np.array(t.profile, dtype=float)
+    except InvalidModelException as e:
+        return 'invalid', type(e).__name__
+
+
+def hist_fn(case):
+    from taurex.data import Planet
+    r = core.R(case)
+    fam = case['fam']
+    N = 5
+    P = np.logspace(6, -1, N)
+
+    def fresh():
+        t = hist_make(fam)
+        t.initialize_profile(Planet(), N, P)
+        return t
+
+    live = fresh()
+    hist_eval(live)
+    net = {}
+    names = []
+    for k, (name, value) in enumerate(case['hist']):
+        live.fitting_parameters()[name][3](value)
+        net[name] = value
+        names.append(name)
+        got = hist_eval(live)
+        f = fresh()
+        for n_ in sorted(net):
+            f.fitting_parameters()[n_][3](net[n_])
+        want = hist_eval(f)
+        sig = '%s/ops=%s' % (fam, '>'.join(names))
+        ok = r.check(got[0] == want[0], 'history-verdict', 'history-verdict/' + sig, live=got[0], fresh=want[0],
+                     hist=case['hist'][:k + 1])
+        if ok and got[0] == 'profile':
+            ok = r.eq(got[1], want[1], 'history-independence', 'history/' + sig, rtol=1e-12, hist=case['hist'][:k + 1])
+            r.observe(got[1])
+        else:
+            r.observe(got[0], got[1] if got[0] == 'invalid' else 0)
+        if not ok:
+            break
+    r.nontrivial = len(case['hist']) > 1
+    return r
+
+
 # ------------------------------------------------------------------------------------------------
 # enumeration
 # ------------------------------------------------------------------------------------------------
@@ -583,3 +660,12 @@ def explore(ctx):
                       rodgers_cases=len(rod), guillot_cases=len(gui),
                       guillot='quick: <=2 deviations + full product of %s; thorough: + full product of the six '
                               'parameters' % (G_CORE,))
+    import itertools as _it
+    depth = 3 if ctx.tier == 'quick' else 4
+    hc = []
+    for fam, alpha in HIST_FAMILIES.items():
+        dd = depth if len(alpha) <= 9 or ctx.tier == 'thorough' else depth - 1
+        for d in range(1, dd + 1):
+            hc += [{'fam': fam, 'hist': [list(o) for o in h]} for h in _it.product(alpha, repeat=d)]
+    ctx.bounds.update(history_depth=depth, histories=len(hc))
+    ctx.run_cases('hist_fn', hc, phase='histories')
